@@ -3,7 +3,7 @@
 // It never decides a verdict about model agreement; that happens in extracted Gallina (modelrun).
 // Property-level oracles evaluated on the implementation alone (e.g. metamorphic laws) are reported
 // as lines starting with "VIOL " on the stats stream.
-package main
+package hlib
 
 import (
 	"bufio"
@@ -18,55 +18,56 @@ import (
 	"strings"
 )
 
-type stream func(c *ctx)
+type Stream func(c *Ctx)
 
-var streams = map[string]stream{}
+var streams = map[string]Stream{}
 
-func register(name string, s stream) { streams[name] = s }
+func Register(name string, s Stream) { streams[name] = s }
 
-type ctx struct {
-	seed   uint64
-	n      int
-	tier   string
-	out    *bufio.Writer
-	stats  map[string]any
-	dist   map[string]int
-	viol   []string
-	rng    *rng
-	args   []string
-	nlines int
+type Ctx struct {
+	Seed   uint64
+	N      int
+	Tier   string
+	Out    *bufio.Writer
+	Stats  map[string]any
+	Dist   map[string]int
+	Viol   []string
+	Rng    *Rng
+	Args   []string
+	Nlines int
 }
 
-func (c *ctx) emit(format string, a ...any) {
-	fmt.Fprintf(c.out, format, a...)
-	c.out.WriteByte('\n')
-	c.nlines++
+func (c *Ctx) Emit(format string, a ...any) {
+	fmt.Fprintf(c.Out, format, a...)
+	c.Out.WriteByte('\n')
+	c.Nlines++
 }
-func (c *ctx) count(k string) { c.dist[k]++ }
-func (c *ctx) violation(format string, a ...any) {
-	c.viol = append(c.viol, fmt.Sprintf(format, a...))
+func (c *Ctx) Count(k string) { c.Dist[k]++ }
+func (c *Ctx) Violation(format string, a ...any) {
+	c.Viol = append(c.Viol, fmt.Sprintf(format, a...))
 }
 
 // splitmix64
-type rng struct{ s uint64 }
+type Rng struct{ s uint64 }
 
-func (r *rng) next() uint64 {
+func (r *Rng) Next() uint64 {
 	r.s += 0x9e3779b97f4a7c15
 	z := r.s
 	z = (z ^ (z >> 30)) * 0xbf58476d1ce4e5b9
 	z = (z ^ (z >> 27)) * 0x94d049bb133111eb
 	return z ^ (z >> 31)
 }
-func (r *rng) intn(n int) int {
+func (r *Rng) Intn(n int) int {
 	if n <= 0 {
 		return 0
 	}
-	return int(r.next() % uint64(n))
+	return int(r.Next() % uint64(n))
 }
-func (r *rng) chance(num, den int) bool { return r.intn(den) < num }
-func (r *rng) fork() *rng                { return &rng{r.next()} }
+func (r *Rng) Chance(num, den int) bool { return r.Intn(den) < num }
+func (r *Rng) Fork() *Rng               { return &Rng{r.Next()} }
+func NewRng(seed uint64) *Rng           { return &Rng{seed} }
 
-func hexs(b []byte) string {
+func Hexs(b []byte) string {
 	if len(b) == 0 {
 		return "-"
 	}
@@ -74,7 +75,7 @@ func hexs(b []byte) string {
 }
 
 // sexpVal renders a gojq value in the transport format.
-func sexpVal(v any) string {
+func SexpVal(v any) string {
 	switch v := v.(type) {
 	case nil:
 		return "null"
@@ -90,15 +91,15 @@ func sexpVal(v any) string {
 	case float64:
 		return fmt.Sprintf("(f %d)", math.Float64bits(v))
 	case json.Number:
-		return "(l " + hexs([]byte(v.String())) + ")"
+		return "(l " + Hexs([]byte(v.String())) + ")"
 	case string:
-		return "(s " + hexs([]byte(v)) + ")"
+		return "(s " + Hexs([]byte(v)) + ")"
 	case []any:
 		var b strings.Builder
 		b.WriteString("(a")
 		for _, x := range v {
 			b.WriteByte(' ')
-			b.WriteString(sexpVal(x))
+			b.WriteString(SexpVal(x))
 		}
 		b.WriteByte(')')
 		return b.String()
@@ -111,18 +112,19 @@ func sexpVal(v any) string {
 		var b strings.Builder
 		b.WriteString("(o")
 		for _, k := range keys {
-			b.WriteString(" (" + hexs([]byte(k)) + " " + sexpVal(v[k]) + ")")
+			b.WriteString(" (" + Hexs([]byte(k)) + " " + SexpVal(v[k]) + ")")
 		}
 		b.WriteByte(')')
 		return b.String()
 	case error:
-		return "(err " + hexs([]byte(v.Error())) + ")"
+		return "(err " + Hexs([]byte(v.Error())) + ")"
 	default:
-		return fmt.Sprintf("(unknown %s)", hexs([]byte(fmt.Sprintf("%T", v))))
+		return fmt.Sprintf("(unknown %s)", Hexs([]byte(fmt.Sprintf("%T", v))))
 	}
 }
 
-func main() {
+// Main dispatches os.Args[1] to a registered stream.
+func Main() {
 	if len(os.Args) < 2 {
 		fmt.Fprintln(os.Stderr, "usage: harness <stream> [-seed N] [-n N] [-tier T] [-out FILE] [-stats FILE] [args...]")
 		os.Exit(2)
@@ -150,15 +152,15 @@ func main() {
 		defer f.Close()
 		w = f
 	}
-	c := &ctx{seed: *seed, n: *n, tier: *tier, out: bufio.NewWriterSize(w, 1<<20),
-		stats: map[string]any{}, dist: map[string]int{}, rng: &rng{*seed}, args: fs.Args()}
+	c := &Ctx{Seed: *seed, N: *n, Tier: *tier, Out: bufio.NewWriterSize(w, 1<<20),
+		Stats: map[string]any{}, Dist: map[string]int{}, Rng: &Rng{*seed}, Args: fs.Args()}
 	s(c)
-	c.out.Flush()
-	c.stats["lines"] = c.nlines
-	c.stats["distribution"] = c.dist
-	c.stats["impl_violations"] = c.viol
+	c.Out.Flush()
+	c.Stats["lines"] = c.Nlines
+	c.Stats["distribution"] = c.Dist
+	c.Stats["impl_violations"] = c.Viol
 	if *statsp != "" {
-		b, _ := json.MarshalIndent(c.stats, "", " ")
+		b, _ := json.MarshalIndent(c.Stats, "", " ")
 		os.WriteFile(*statsp, b, 0o644)
 	}
 }
